@@ -20,10 +20,10 @@ var c06SpecCases = []c06SpecCase{
 	{"#frag", "http://app.test", "own"},
 	{"x/y", "http://app.test", "own"},
 	{"/x//evil.test", "http://app.test", "own"},
-	{"/ /evil.test", "http://app.test", "own"},      // a space inside is not stripped
-	{"/\x0b/evil.test", "http://app.test", "own"},   // neither is VT
-	{"/\x0c/evil.test", "http://app.test", "own"},   // nor FF
-	{"/%09/evil.test", "http://app.test", "own"},    // escapes in a path are not decoded
+	{"/ /evil.test", "http://app.test", "own"},    // a space inside is not stripped
+	{"/\x0b/evil.test", "http://app.test", "own"}, // neither is VT
+	{"/\x0c/evil.test", "http://app.test", "own"}, // nor FF
+	{"/%09/evil.test", "http://app.test", "own"},  // escapes in a path are not decoded
 	{"/%2f/evil.test", "http://app.test", "own"},
 	{"/\u00a0/evil.test", "http://app.test", "own"},
 	{"/.//evil.test", "http://app.test", "own"}, // origin is decided before dot segments are removed
@@ -218,6 +218,8 @@ var c06WLCases = []c06WLCase{
 	{"https://GOOD.test/", []string{"good.test"}, true}, // the browser lower-cases the host
 	{"https://other.test/", []string{"good.test", ".other.test"}, true},
 	{"https://127.1/", []string{"127.0.0.1"}, true},
+	{"https://good.test./", []string{"good.test"}, true}, // fully-qualified spelling of the same DNS name
+	{"https://good.test.evil.test./", []string{"good.test"}, false},
 }
 
 // c06SelfTest returns the list of failed self-tests (empty = the oracle behaves as the URL Standard says).
